@@ -766,9 +766,6 @@ def run_impl(case, suspend=False, cancel_at=None, cancel_id=9, reply=False):
     sys.unraisablehook = lambda u: unraisable.append("%s: %s" % (type(u.exc_value).__name__, u.exc_value))
     try:
         r = _run_impl(case, suspend, cancel_at, cancel_id, reply)
-        # drop the iterator objects' frames now so that finalisers run inside the hook's scope
-        import gc
-        gc.collect()
         r["unraisable"] = unraisable
         return r
     except Runaway as e:
